@@ -1,4 +1,5 @@
 import GitSizer.Model.ScanProto
+import GitSizer.Proofs.PipelineR
 import GitSizer.Proofs.Pipeline3
 import GitSizer.Proofs.Pipeline2
 import GitSizer.Gen.Flows
@@ -294,11 +295,18 @@ theorem batch_phase_never_hangs (requests : Option Nat) (ca cd : Nat) (ha : 0 < 
   have hi := inv_reach (inv_init requests ca cd ha hd) hr
   ⟨progress hi, returns_of_inv (mu s) s (Nat.le_refl _) hi⟩
 
+open GitSizer.PipelineR in
+/-- and for reference enumeration (`git/ref_iter.go`): `for-each-ref`, `parse-refs`, the goroutine that sends
+    `p.Wait()` over the unbuffered `errCh`, the consumer — **no deadlock, returns on every run** -/
+theorem reference_phase_never_hangs (lines cd : Nat) (hd : 0 < cd) (s : St) (hr : Reach (init lines cd) s) :
+    (s.main ≠ .done → ∃ s', Step s s') ∧ Returns s :=
+  have hi := inv_reach (inv_init lines cd hd) hr
+  ⟨progress hi, returns_of_inv (mu s) s (Nat.le_refl _) hi⟩
+
 /-- **the models have the pipelines' shape**, REGENERATED: the listing pipeline is
     goroutine → `git rev-list` → goroutine → `git cat-file` → goroutine (five stages, `Model/Pipeline`),
-    the contents pipeline goroutine → `git cat-file` → goroutine (three stages, `Model/Pipeline3`); the
-    reference pipeline (`git for-each-ref` → goroutine, no feeder) is the last two links of the same chain
-    and is not modelled separately -/
+    the contents pipeline goroutine → `git cat-file` → goroutine (three stages, `Model/Pipeline3`), the
+    reference pipeline `git for-each-ref` → goroutine (two stages and the `p.Wait()` helper goroutine, `Model/PipelineR`) -/
 theorem pipelines_have_the_modelled_shape :
     Gen.Cmds.pipelineStages =
       [("git/obj_iter.go", [("Function", "request-objects"), ("CommandStage", "git-rev-list"), ("LinewiseFunction", "copy-oids"),
